@@ -24,7 +24,7 @@ RULE = (
 
 INIT_LOG = []
 CLASS_NAMES = ["FlatA", "FlatB", "Top", "Mid", "Leaf", "Derived", "SVert", "EmptyReg", "NoBool", "Nester", "Resetter",
-               "SelfResetter", "Backend", "Shadowy"]
+               "SelfResetter", "Backend", "Shadowy", "Plugin"]
 class ArrayLike:
     """An argument object with numpy-style comparison: == answers element-wise, and the answer has no truth value."""
 
@@ -59,8 +59,14 @@ KWARGS = [{}, {"a": 1}, {"b": [1]}, {"a": None, "b": 2},
           {"a": ArrayLike(1, 2)}, {"a": ArrayLike(5, 6)}, {"b": Incomparable()}]
 
 
+INITIAL_LIVE = {}
+
+
 def make_classes():
     del INIT_LOG[:]
+    # start from a clean table whatever ran before in this process
+    singleton.clear_true_singleton()
+    INITIAL_LIVE.clear()
 
     class Base:
         def __init__(self, *args, **kwargs):
@@ -144,10 +150,22 @@ def make_classes():
             singleton.clear_true_singleton(type(self))
             super().__init__(*args, **kwargs)
 
-    # start from a clean table whatever ran before in this process
-    singleton.clear_true_singleton()
+    class PluginBase(Base, metaclass=singleton.TrueSingleton):
+        """The plugin auto-registration idiom: every subclass is constructed once while its class statement runs."""
+
+        registry = []
+
+        def __init_subclass__(cls, **kwargs):
+            super().__init_subclass__(**kwargs)
+            PluginBase.registry.append(cls("auto"))
+
+    class Plugin(PluginBase):
+        pass
+
+    # (the first period of Plugin began inside its own class statement: that instance is the live one)
+    INITIAL_LIVE["Plugin"] = PluginBase.registry[0]
     return {c.__name__: c for c in (FlatA, FlatB, Top, Mid, Leaf, Derived, SVert, EmptyReg, NoBool, Nester, Resetter,
-                                    SelfResetter, Backend, Shadowy)}
+                                    SelfResetter, Backend, Shadowy, Plugin)}
 
 
 class _Ref:
@@ -169,8 +187,8 @@ def run_history(ops, keep_refs=True):
     if not keep_refs:
         return run_history_norefs(ops)
     classes = make_classes()
-    model = {}  # cname -> instance
-    created = []
+    model = dict(INITIAL_LIVE)  # cname -> instance
+    created = list(model.values())
     found = []
     repeats = clears = 0
     touched = set()
@@ -273,7 +291,8 @@ def run_history_norefs(ops):
     """
     classes = make_classes()
     ops = [o for o in ops if o.get("c") not in ("Nester", "Resetter", "SelfResetter")]
-    model = {}  # cname -> _Ref
+    model = {c: _Ref(o) for c, o in INITIAL_LIVE.items()}  # cname -> _Ref
+    INITIAL_LIVE.clear()
     found = []
     repeats = clears = 0
     touched = set()
@@ -346,7 +365,8 @@ def prelude():
     ALL = {"op": "clear_all"}
     for a, b in (("FlatA", "FlatB"), ("Top", "Mid"), ("Mid", "Top"), ("Leaf", "Top"), ("Derived", "FlatA"), ("SVert", "Mid"), ("EmptyReg", "FlatA"), ("NoBool", "EmptyReg"),
                  ("Nester", "FlatA"), ("FlatA", "Nester"), ("Resetter", "FlatA"), ("FlatB", "Resetter"), ("SelfResetter", "Top"),
-                 ("Nester", "Resetter"), ("Backend", "FlatA"), ("Top", "Backend"), ("Shadowy", "FlatA"), ("Mid", "Shadowy")):
+                 ("Nester", "Resetter"), ("Backend", "FlatA"), ("Top", "Backend"), ("Shadowy", "FlatA"), ("Mid", "Shadowy"),
+                 ("Plugin", "FlatA"), ("Top", "Plugin")):
         out.append([N(a, 1), N(b, 2, 1), N(a, 3), C(a), N(a, 2), N(b), C(b), C(b), N(b, 1), ALL, N(a), N(b), C(a), ALL, ALL,
                     N(b, 4), N(a, 5, 2), C(b), N(a), N(b)])
         out.append([C(a), N(a, 7), ALL, C(a), N(a, 6), N(a, 1)])
